@@ -633,6 +633,114 @@ pub fn handle(op: &str, a: &[&str]) -> Option<String> {
             }
             Some(out)
         }
+        ("rd-parse", [e, version, format, address_size, seed, mutate]) => {
+            // whole sections written by gimli::write (units, line programs, range/location lists,
+            // frame tables), optionally damaged, parsed and dumped under every reader kind
+            use super::c18::{dump, load, write_plain, Counts, Env, Recipe, SECS};
+            let e = endian(e)?;
+            let rc = Recipe {
+                e,
+                version: version.parse().ok()?,
+                format: match *format {
+                    "32" => Format::Dwarf32,
+                    "64" => Format::Dwarf64,
+                    _ => return None,
+                },
+                address_size: address_size.parse().ok()?,
+                seed: seed.parse().ok()?,
+                eh_enc: 0,
+                what: "all".into(),
+            };
+            let mutate: u64 = mutate.parse().ok()?;
+            let env = Env { syms: vec![0x1000, 0x20000, 0x30000, 0x40000], secs: vec![] };
+            let mut secs = match write_plain(&rc, &env) {
+                Ok(s) => s,
+                Err(x) => return Some(format!("normal i0 e1 c0 write:{x}")),
+            };
+            if mutate != 0 {
+                // damage: truncate one section and overwrite a few bytes, derived from `mutate`
+                let mut rng = Rng::new(mutate);
+                for _ in 0..(1 + rng.below(3)) {
+                    let k = rng.below(secs.len() as u64) as usize;
+                    if secs[k].is_empty() {
+                        continue;
+                    }
+                    if rng.chance(1, 2) {
+                        let n = rng.below(secs[k].len() as u64) as usize;
+                        secs[k].truncate(n);
+                    } else {
+                        let at = rng.below(secs[k].len() as u64) as usize;
+                        secs[k][at] = *rng.pick(&[0u8, 0xff, 0x80, 0x7f, 1]);
+                    }
+                }
+            }
+            let asz = rc.address_size;
+            let empty: &[u8] = &[];
+            let mut dumps: Vec<(&str, String)> = Vec::new();
+            let mut cnt = Counts { items: 0, errors: 0 };
+            let mut panicked: Vec<&str> = Vec::new();
+            macro_rules! kind {
+                ($name:expr, $mk:expr) => {{
+                    let r = caught(|| {
+                        let (d, f, eh) = load(asz, &$mk);
+                        let mut c = Counts { items: 0, errors: 0 };
+                        let s = dump(&d, &f, &eh, &mut c);
+                        (s, c.items, c.errors)
+                    });
+                    match r {
+                        Some((s, i, er)) => {
+                            cnt.items += i;
+                            cnt.errors += er;
+                            dumps.push(($name, s));
+                        }
+                        None => panicked.push($name),
+                    }
+                }};
+            }
+            kind!("slice", |i: usize| EndianSlice::new(if i < SECS.len() { &secs[i][..] } else { empty }, e));
+            let rcs: Vec<Rc<[u8]>> = secs.iter().map(|s| Rc::from(&s[..])).collect();
+            let rc_empty: Rc<[u8]> = Rc::from(empty);
+            kind!("rc", |i: usize| EndianRcSlice::new(if i < SECS.len() { rcs[i].clone() } else { rc_empty.clone() }, e));
+            let arcs: Vec<Arc<[u8]>> = secs.iter().map(|s| Arc::from(&s[..])).collect();
+            let arc_empty: Arc<[u8]> = Arc::from(empty);
+            kind!("arc", |i: usize| EndianArcSlice::new(if i < SECS.len() { arcs[i].clone() } else { arc_empty.clone() }, e));
+            let live = Rc::new(Cell::new(0i64));
+            {
+                let customs: Vec<Custom> = secs.iter().map(|s| Custom::new(s, live.clone())).collect();
+                let custom_empty = Custom::new(empty, live.clone());
+                kind!("custom", |i: usize| EndianReader::new(if i < SECS.len() { customs[i].clone() } else { custom_empty.clone() }, e));
+            }
+            let leaked = live.get();
+            let cnt1 = CountId(Rc::new(Cell::new(0)), Rc::new(Cell::new((0, 0))));
+            kind!("rslice", |i: usize| RelocateReader::new(EndianSlice::new(if i < SECS.len() { &secs[i][..] } else { empty }, e), cnt1.clone()));
+            let cnt2 = CountId(Rc::new(Cell::new(0)), Rc::new(Cell::new((0, 0))));
+            kind!("rrc", |i: usize| RelocateReader::new(EndianRcSlice::new(if i < SECS.len() { rcs[i].clone() } else { rc_empty.clone() }, e), cnt2.clone()));
+            let mut out = format!("normal i{} e{} c{}", cnt.items, cnt.errors, dumps.len());
+            let mut oracle: Option<String> = None;
+            if leaked != 0 {
+                oracle = Some(format!("handle-leak {leaked} handles of the custom buffer alive after the parse"));
+            }
+            if let Some((n0, d0)) = dumps.first() {
+                for (n, d) in &dumps[1..] {
+                    if d != d0 && oracle.is_none() {
+                        let (l0, l1): (Vec<&str>, Vec<&str>) = (d0.lines().collect(), d.lines().collect());
+                        let i = (0..l0.len().max(l1.len())).find(|&i| l0.get(i) != l1.get(i)).unwrap_or(0);
+                        let cut = |s: Option<&&str>| s.map(|s| s.chars().take(160).collect::<String>()).unwrap_or_default();
+                        oracle = Some(format!("kinds-differ-parse {n} vs {n0}: `{}` vs `{}`", cut(l1.get(i)), cut(l0.get(i))));
+                    }
+                }
+            }
+            if !panicked.is_empty() && oracle.is_none() {
+                // a panic under some kinds only is a difference between kinds; under all kinds it is C01's business
+                let class = if panicked.len() == 6 { "parse-panics" } else if panicked.iter().all(|k| *k == "rslice" || *k == "slice") { "slice-empty-detaches" } else { "kinds-differ-parse" };
+                oracle = Some(format!("{class} panic under {}", panicked.join(",")));
+            }
+            if let Some(o) = oracle {
+                out.push_str(" #oracle:");
+                out.push_str(&o);
+            }
+            Some(out)
+        }
         ("rd-utf8", [h]) => {
             let bs = unhex(h)?;
             let v = std::str::from_utf8(&bs).is_ok();
@@ -816,6 +924,22 @@ pub fn gen(ctx: &Ctx, emit: &mut dyn FnMut(String)) {
         };
         let h = gen_history(&mut rng, &sec, nops, allow_empty, allow_panic);
         emit(format!("rd-hist @MODE@ {e} {} {h}", hex(&sec)));
+    }
+    // ---- whole-section parses under every kind: intact and damaged gimli::write output
+    let mut k = 0u64;
+    for version in [2u16, 3, 4, 5] {
+        for format in ["32", "64"] {
+            for asz in [4u8, 8] {
+                for e in ["le", "be"] {
+                    k += 1;
+                    let seed = ctx.seed * 977 + k;
+                    emit(format!("rd-parse {e} {version} {format} {asz} {seed} 0"));
+                    for j in 0..ctx.n(12, 400) {
+                        emit(format!("rd-parse {e} {version} {format} {asz} {seed} {}", 1 + rng.below(1 << 40) + j as u64));
+                    }
+                }
+            }
+        }
     }
     // ---- UTF-8 validity / lossy conversion of the Model vs the standard library
     for _ in 0..ctx.n(1500, 40_000) {
